@@ -290,3 +290,51 @@ impl Lattice {
         Ok(())
     }
 }
+
+/// Verification hooks: read-only views of the lattice state
+#[cfg(feature = "verif")]
+impl Lattice {
+    /// For every end boundary (all allocated rows, also those past `size`), in insertion order:
+    /// (begin, end, left_id, right_id, cost, raw word id, total cost, back-pointer end, back-pointer index)
+    pub fn verif_rows(&self) -> Vec<Vec<(usize, usize, u16, u16, i16, u32, i32, u16, u16)>> {
+        let mut rows = Vec::with_capacity(self.ends_full.len());
+        for (e, full) in self.ends_full.iter().enumerate() {
+            let mut row = Vec::with_capacity(full.len());
+            for (i, n) in full.iter().enumerate() {
+                // row 0 holds the BOS entry only in `ends`, so `ends` is offset by one there
+                let off = if e == 0 { 1 } else { 0 };
+                let v = &self.ends[e][i + off];
+                let idx = self.indices[e][i];
+                row.push((
+                    n.begin(),
+                    n.end(),
+                    n.left_id(),
+                    n.right_id(),
+                    n.cost(),
+                    n.word_id().as_raw(),
+                    v.total_cost,
+                    idx.end(),
+                    idx.index(),
+                ));
+            }
+            rows.push(row);
+        }
+        rows
+    }
+
+    /// lengths of the three parallel row vectors, per boundary
+    pub fn verif_row_lens(&self) -> Vec<(usize, usize, usize)> {
+        (0..self.ends.len())
+            .map(|i| (self.ends[i].len(), self.ends_full[i].len(), self.indices[i].len()))
+            .collect()
+    }
+
+    /// best predecessor of EOS (end, index) and the final path cost
+    pub fn verif_eos(&self) -> Option<(u16, u16, i32)> {
+        self.eos.map(|(i, c)| (i.end(), i.index(), c))
+    }
+
+    pub fn verif_size(&self) -> usize {
+        self.size
+    }
+}
